@@ -134,7 +134,6 @@ require (
 	gopkg.in/natefinch/lumberjack.v2 v2.2.1 // indirect
 	gopkg.in/yaml.v2 v2.4.0 // indirect
 	lukechampine.com/blake3 v1.4.1 // indirect
-	pgregory.net/rapid v1.3.0
 )
 
 replace github.com/obolnetwork/charon => /repo
